@@ -46,6 +46,17 @@ func vCornerOps() []vCorner {
 		{q: `query($v: Int) { search(meta: {k: $v}) }`, vars: map[string]interface{}{"v": 1}},
 		{q: `{ search(meta: [1, {a: [2]}]) }`},
 		{q: `query($v: JSON) { search(meta: $v) }`, vars: map[string]interface{}{"v": []interface{}{1, "x"}}},
+		// documents without any operation (a comment, blanks, commas)
+		{q: `# nothing`},
+		{q: ` `},
+		{q: `,,,`},
+		{q: `# nothing`, opName: "A"},
+		// one fragment definition spread at several places (the planner rewrites selections in place), with
+		// fragments on the interface / union itself and without type condition inside
+		{q: `{ ...Q ...Q } fragment Q on Query { pets { ... on Pet { name } } }`},
+		{q: `{ ...Q ... on Query { ...Q } } fragment Q on Query { pets { ... { name } } things { ... on Thing { ... on Cat { toy } } } }`},
+		{q: `{ ...Q ...Q } fragment Q on Query { things { ... on Thing { ... on Pet { name } } } }`},
+		{q: `{ a: pets { ...P } b: pets { ...P } } fragment P on Pet { ... on Pet { name ... on Cat { toy } } }`},
 	}
 }
 
